@@ -100,6 +100,28 @@ func (sh *Shard[E, S]) Equal(other mpcsig.Shard[*schnorrlike.PublicKey[E, S], *f
 	return ok && sh.BaseShard.Equal(&o.BaseShard)
 }
 
+// UnmarshalCBOR deserialises a shard (the wire format is that of the embedded
+// mpc.BaseShard) and revalidates it through NewShard, so that decoding accepts
+// exactly the shards that can be constructed: in particular a verification
+// vector whose public key is the identity is rejected.
+func (sh *Shard[E, S]) UnmarshalCBOR(data []byte) error {
+	if sh == nil {
+		return ErrInvalidArgument.WithMessage("shard is nil")
+	}
+	var bs mpc.BaseShard[E, S]
+	if err := bs.UnmarshalCBOR(data); err != nil {
+		return errs.Wrap(err).WithMessage("failed to unmarshal Schnorr shard")
+	}
+	decoded, err := NewShard(bs.Share(), bs.VerificationVector(), bs.MSP())
+	if err != nil {
+		return errs.Wrap(err).WithMessage("failed to create Schnorr shard from deserialised data")
+	}
+	sh.BaseShard = decoded.BaseShard
+	sh.pk = decoded.pk
+	sh.pkOnce = sync.Once{}
+	return nil
+}
+
 // NewShard creates a new Schnorr shard from a Feldman share, verification vector, and MSP.
 func NewShard[E algebra.PrimeGroupElement[E, S], S algebra.PrimeFieldElement[S]](
 	share *feldman.Share[S],
